@@ -163,8 +163,10 @@ class C03(Prop):
                 if scenario == "failing-peer" and nf >= 2:
                     os.remove(os.path.join(chip, f"pwm{nf}"))
                     os.mkdir(os.path.join(chip, f"pwm{nf}"))
+                # file and cmd fans have no control mode to hand back: they must end at full speed (255)
+                n_file, n_cmd = (r.below(2), r.below(2)) if scenario in ("term1", "burst", "int", "mixed") else (0, 0)
                 cfg = daemon.make_config(base, chip, nfans=nf, curve=r.pick(["linear", "pid", "function"]),
-                                         algo=r.pick(["direct", "pid"]), never_stop=r.chance(0.3))
+                                         algo=r.pick(["direct", "pid"]), never_stop=r.chance(0.3), file_fans=n_file, cmd_fans=n_cmd)
                 d = daemon.Daemon(binary, base, cfg, j)
                 began = True
                 nsig = 0
@@ -201,7 +203,15 @@ class C03(Prop):
                     fans_state.append({"fan": i, "pwm": pwm, "mode": mode})
                     if not ok and not untouched:
                         bad.append(f"fan{i}: mode {mode} pwm {pwm} (original mode {orig_mode}, pwm {orig_pwm})")
-                classes.add((scenario, nf, orig_mode, min(nsig, 3)))
+                if began:
+                    for kind_, cnt in (("filefan", n_file), ("cmdfan", n_cmd)):
+                        for i in range(1, cnt + 1):
+                            reg = os.path.join(base, f"{kind_}{i}" + ("_pwm" if kind_ == "cmdfan" else ""))
+                            v = daemon.read_int(reg)
+                            fans_state.append({"fan": f"{kind_}{i}", "pwm": v})
+                            if v != 255 and v != 90:   # 90 = never touched
+                                bad.append(f"{kind_}{i}: left at pwm {v} (no control mode to hand back: must be 255)")
+                classes.add((scenario, nf, orig_mode, min(nsig, 3), n_file, n_cmd))
                 rec = {"scenario": scenario, "fans": nf, "orig_mode": orig_mode, "signals": nsig, "exit": rc,
                        "state": fans_state, "log_flags": kinds}
                 if len(samples) < 3:
